@@ -546,8 +546,8 @@ def nTablesPy : Nat := {len(pairs)}
 /-- `if not sources: raise ValueError` (no state change) and `if not caches: return []`: without matched cache files nothing happens -/
 def emptyCachesNoop : Bool := true
 
-/-- `{cac['src_agg']}([os.path.getmtime(s) for s in sources if os.path.isfile(s)])` over ALL matched sources (mtimes are naturals: starting the
-fold at 0 is the {cac['src_agg']} of the list itself for `max`) -/
+/-- `{cac['src_agg']}([os.path.getmtime(s) for s in sources if os.path.isfile(s)])` over ALL matched sources, folded from 0
+(modification times are naturals: for `max` this is the maximum of the list) -/
 def srcAgg (ms : List Nat) : Nat := ms.foldl {cac['src_agg']} 0
 
 /-- `{cac['cache_agg']}([os.path.getmtime(c) for c in caches if os.path.isfile(c)])` over ALL matched cache files: `m` the first, `ms` the others -/
